@@ -51,6 +51,14 @@ MISSED_FIRST = {"C02-1": "dict keys were always generated in mesh order", "C02-2
                 "C16-15": "no mesh far from the origin compared with its cell size (offset/cell of 1e6..1e8)",
                 "C18-14": "rotation angles were never a fraction of a degree (caught in 2 of 4000 runs only; now small-angle runs)",
                 "C18-15": "target meshes never exceeded 2**16 cells",
+                "C08-17": "pad was only called with a mode, never with constant_values",
+                "C09-16": "the unit pool had no unit spelled '1' (the first run reported it through a harness false alarm - two cancelling bit flips counted as damage - which was removed)",
+                "C10-18": "no one-component field labelled 'None'",
+                "C13-18": "reference points and k were always passed by keyword, never positionally",
+                "C14-18": "plane selections never at the coordinate 0 exactly",
+                "C15-18": "constructor never got a flat per-cell value (shape n) together with a norm",
+                "C18-17": "rotator fields were always float",
+                "C18-18": "rotator mappings were always written in label order",
                 "C16-9": "upper corners were always computed as pmin + k*cell, never the float nearest to the decimal value a user types; corners of binary/XML files compared with a tolerance instead of exactly"}
 NOT_APPLICABLE = {}
 verify = {}
